@@ -233,12 +233,12 @@ def prop_assumptions(prop):
 
 
 def try_replay(prop, verdict):
-    """concretise the counter-model and run it on the real code, when a realiser exists"""
-    try:
-        from replay.realize import replay_verdict
-    except ImportError:
+    """concretise the counter-model and run it on the real code, when the contract has a realiser"""
+    w = verdict.get('witness')
+    if not w:
         return None
     try:
-        return replay_verdict(prop, verdict)
+        from replay.oracle import replay_witness
+        return replay_witness(w)
     except Exception as e:  # pragma: no cover
-        return dict(replayed=False, why=f'replayer failed: {e}')
+        return dict(replayed=False, why=f'replayer failed: {type(e).__name__}: {e}')
